@@ -117,6 +117,7 @@ type Sim struct {
 	notify  chan struct{}
 	locks   map[any]*lockModel
 	pools   map[*sync.Pool][]any // model of the sync.Pools the code under test uses (PoolGet / PoolPut)
+	wgs     map[*sync.WaitGroup]*wgShadow
 	free    atomic.Bool
 	arrival uint64
 
@@ -292,6 +293,77 @@ func PoolPut(p *sync.Pool, v any) {
 	s.mu.Lock()
 	s.pools[p] = append(s.pools[p], v)
 	s.mu.Unlock()
+}
+
+// WGAdd, WGDone, WGWait and WGLeft replace the methods of sync.WaitGroup in woven code. They call the real
+// thing and keep a shadow of the counter and of the goroutines that are inside Wait. sync.WaitGroup
+// forbids starting a new round (an Add that takes the counter up from zero) before every Wait of the
+// previous round has returned; the runtime notices only if the woken waiter has not yet re-read the
+// state word, a window of a few instructions that no scheduler placed at kit-level operations can
+// hit - so the shadow reports the misuse itself: an Add from zero while a goroutine that entered Wait
+// with a positive counter has not come back out (WGLeft runs when the simulator schedules it again).
+type wgShadow struct {
+	n      int
+	inside map[*G]bool
+}
+
+func (s *Sim) wgOf(wg *sync.WaitGroup) *wgShadow {
+	m := s.wgs[wg]
+	if m == nil {
+		m = &wgShadow{inside: map[*G]bool{}}
+		s.wgs[wg] = m
+	}
+	return m
+}
+
+func WGAdd(wg *sync.WaitGroup, d int) {
+	if s := cur.Load(); s != nil && !s.free.Load() {
+		s.mu.Lock()
+		m := s.wgOf(wg)
+		misuse := d > 0 && m.n == 0 && len(m.inside) > 0
+		var who []string
+		for g := range m.inside {
+			who = append(who, g.Name)
+		}
+		m.n += d
+		s.mu.Unlock()
+		if misuse {
+			sort.Strings(who)
+			s.Fail("waitgroup-reused-before-wait-returned", fmt.Sprintf("sync.WaitGroup: Add(%d) takes the counter up from zero while %v, woken by the Done that brought it to zero, has not returned from Wait yet; in production this is the panic \"WaitGroup is reused before previous Wait has returned\" whenever the timing is right", d, who))
+		}
+	}
+	wg.Add(d)
+}
+
+func WGDone(wg *sync.WaitGroup) {
+	if s := cur.Load(); s != nil && !s.free.Load() {
+		s.mu.Lock()
+		s.wgOf(wg).n--
+		s.mu.Unlock()
+	}
+	wg.Done()
+}
+
+func WGWait(wg *sync.WaitGroup) {
+	if s := cur.Load(); s != nil && !s.free.Load() {
+		g := s.me("wg.wait")
+		s.mu.Lock()
+		if m := s.wgOf(wg); m.n > 0 {
+			m.inside[g] = true
+		}
+		s.mu.Unlock()
+	}
+	wg.Wait()
+}
+
+// WGLeft: the caller has returned from Wait and has been scheduled again.
+func WGLeft(wg *sync.WaitGroup) {
+	if s := cur.Load(); s != nil && !s.free.Load() {
+		g := s.me("wg.left")
+		s.mu.Lock()
+		delete(s.wgOf(wg).inside, g)
+		s.mu.Unlock()
+	}
 }
 
 // YieldMem is a possible context switch before a statement that reads or writes memory other
@@ -1161,7 +1233,7 @@ func Execute(t *testing.T, src Source, configure func(src Source) Config, body f
 			if cfg.MaxYields == 0 {
 				cfg.MaxYields = max(100000, cfg.MaxSteps/2)
 			}
-			s = &Sim{cfg: cfg, src: src, gs: map[uint64]*G{}, locks: map[any]*lockModel{}, pools: map[*sync.Pool][]any{},
+			s = &Sim{cfg: cfg, src: src, gs: map[uint64]*G{}, locks: map[any]*lockModel{}, pools: map[*sync.Pool][]any{}, wgs: map[*sync.WaitGroup]*wgShadow{},
 				notify: make(chan struct{}, 1), unlockCh: make(chan struct{}), probes: map[string]int{}, faults: map[string]int{},
 				thash: 14695981039346656037, start: time.Now()}
 			if cfg.Strategy == 2 {
